@@ -165,6 +165,14 @@ func GenConfig(prop string, g *Gen, tier string) Config {
 			c.KeyD = "string"
 			c.ValD = "string"
 		}
+	case "C12":
+		// loads must really happen: no cache, a 1-2 entry cache, or the evicting chaos cache
+		c.Cache = []string{"none", "none", "arc-tiny:1", "arc-tiny:2", "chaos"}[g.Intn(5)]
+		c.BF = []uint{2, 2, 3, 4}[g.Intn(4)]
+		c.U = []int{8, 12, 20, 40}[g.Intn(4)]
+		if c.KeyD == "userkey" {
+			c.Layers = genLayers(g, c.U)
+		}
 	case "C15", "C16", "C13":
 		// big-tree profiles use cheap dialects
 		if g.Intn(3) == 0 {
